@@ -307,3 +307,597 @@ func (w *World) coalesceCopies(overlay map[string][]byte) (map[string][]byte, []
 	}
 	return out, done
 }
+
+// devirtualizeSeams: a package-level function variable that is initialised with a function and never assigned in
+// non-test code (`var openFile = os.OpenFile`, a seam for tests) is called directly.
+func (w *World) devirtualizeSeams(overlay map[string][]byte) (map[string][]byte, []string) {
+	edits := map[string][]textEdit{}
+	var done []string
+	for _, pk := range w.Pkgs {
+		info := pk.TypesInfo
+		// candidate variables: package level, function type, initialiser names a function
+		init := map[types.Object]string{}
+		initFile := map[types.Object]string{}
+		for _, file := range pk.Syntax {
+			tf, fname := w.fileOf(file.Pos())
+			src := readSource(fname, overlay)
+			for _, d := range file.Decls {
+				gd, ok := d.(*ast.GenDecl)
+				if !ok || gd.Tok != token.VAR {
+					continue
+				}
+				for _, sp := range gd.Specs {
+					vs := sp.(*ast.ValueSpec)
+					if len(vs.Names) != len(vs.Values) {
+						continue
+					}
+					for i, nm := range vs.Names {
+						obj := info.Defs[nm]
+						if obj == nil {
+							continue
+						}
+						if _, isSig := obj.Type().Underlying().(*types.Signature); !isSig {
+							continue
+						}
+						val := ast.Unparen(vs.Values[i])
+						var fn *types.Func
+						switch y := val.(type) {
+						case *ast.Ident:
+							fn, _ = info.Uses[y].(*types.Func)
+						case *ast.SelectorExpr:
+							if _, isPkg := info.Uses[pkgIdent(y)].(*types.PkgName); isPkg {
+								fn, _ = info.Uses[y.Sel].(*types.Func)
+							}
+						}
+						if fn == nil {
+							continue
+						}
+						init[obj] = string(src[tf.Offset(val.Pos()):tf.Offset(val.End())])
+						initFile[obj] = fname
+					}
+				}
+			}
+		}
+		if len(init) == 0 {
+			continue
+		}
+		// assigned anywhere, or address taken?
+		for _, file := range pk.Syntax {
+			ast.Inspect(file, func(n ast.Node) bool {
+				switch y := n.(type) {
+				case *ast.AssignStmt:
+					for _, l := range y.Lhs {
+						if id, ok := ast.Unparen(l).(*ast.Ident); ok {
+							delete(init, info.ObjectOf(id))
+						}
+					}
+				case *ast.UnaryExpr:
+					if y.Op == token.AND {
+						if id, ok := ast.Unparen(y.X).(*ast.Ident); ok {
+							delete(init, info.ObjectOf(id))
+						}
+					}
+				}
+				return true
+			})
+		}
+		for _, file := range pk.Syntax {
+			tf, fname := w.fileOf(file.Pos())
+			ast.Inspect(file, func(n ast.Node) bool {
+				call, ok := n.(*ast.CallExpr)
+				if !ok {
+					return true
+				}
+				id, ok := ast.Unparen(call.Fun).(*ast.Ident)
+				if !ok {
+					return true
+				}
+				obj := info.Uses[id]
+				txt, ok := init[obj]
+				if !ok || initFile[obj] != fname && strings.Contains(txt, ".") && !fileImportsAll(file, txt) {
+					return true
+				}
+				edits[fname] = append(edits[fname], textEdit{tf.Offset(id.Pos()), tf.Offset(id.End()), txt})
+				done = append(done, obj.Name())
+				return true
+			})
+		}
+	}
+	if len(done) == 0 {
+		return nil, nil
+	}
+	out := applyEdits(w, overlay, edits)
+	if out == nil {
+		return nil, nil
+	}
+	sort.Strings(done)
+	var uniq []string
+	for i, d := range done {
+		if i == 0 || d != done[i-1] {
+			uniq = append(uniq, d)
+		}
+	}
+	return out, uniq
+}
+
+func pkgIdent(sel *ast.SelectorExpr) *ast.Ident {
+	id, _ := ast.Unparen(sel.X).(*ast.Ident)
+	return id
+}
+
+// fileImportsAll: the file imports the package a qualified name "pkg.Func" needs (by its default name).
+func fileImportsAll(file *ast.File, qualified string) bool {
+	i := strings.Index(qualified, ".")
+	if i < 0 {
+		return true
+	}
+	want := qualified[:i]
+	for _, im := range file.Imports {
+		p := strings.Trim(im.Path.Value, `"`)
+		name := p[strings.LastIndex(p, "/")+1:]
+		if im.Name != nil {
+			name = im.Name.Name
+		}
+		if name == want {
+			return true
+		}
+	}
+	return false
+}
+
+// ---- the polarity of a test ----------------------------------------------------------------------------------------
+
+// negatedKey returns the expression key of the negation of cond (comparison operators flipped, De Morgan for && and ||).
+func negatedKey(cond ast.Expr) string {
+	return exprKey(negateExpr(cond))
+}
+
+func negateExpr(cond ast.Expr) ast.Expr {
+	c := ast.Unparen(cond)
+	switch y := c.(type) {
+	case *ast.UnaryExpr:
+		if y.Op == token.NOT {
+			return ast.Unparen(y.X)
+		}
+	case *ast.BinaryExpr:
+		flip := map[token.Token]token.Token{token.EQL: token.NEQ, token.NEQ: token.EQL, token.LSS: token.GEQ, token.GEQ: token.LSS, token.GTR: token.LEQ, token.LEQ: token.GTR}
+		if op, ok := flip[y.Op]; ok {
+			return &ast.BinaryExpr{X: y.X, Op: op, Y: y.Y}
+		}
+		if y.Op == token.LAND {
+			return &ast.BinaryExpr{X: negateExpr(y.X), Op: token.LOR, Y: negateExpr(y.Y)}
+		}
+		if y.Op == token.LOR {
+			return &ast.BinaryExpr{X: negateExpr(y.X), Op: token.LAND, Y: negateExpr(y.Y)}
+		}
+	}
+	return &ast.UnaryExpr{Op: token.NOT, X: &ast.ParenExpr{X: c}}
+}
+
+func terminates(stmts []ast.Stmt) bool {
+	if len(stmts) == 0 {
+		return false
+	}
+	switch y := stmts[len(stmts)-1].(type) {
+	case *ast.ReturnStmt:
+		return true
+	case *ast.ExprStmt:
+		if call, ok := y.X.(*ast.CallExpr); ok {
+			if id, ok := call.Fun.(*ast.Ident); ok && id.Name == "panic" {
+				return true
+			}
+		}
+	}
+	return false
+}
+
+// restorePolarity: an if statement whose condition is the negation of a condition the pinned version of the function
+// tests (and which the pinned version does not test itself) gets that polarity back, with its branches swapped:
+//
+//	if !C {A} else {B}          ->  if C {B} else {A}
+//	if !C {A; return}; R; return ->  if C {R; return}; A; return        (at the end of the function body)
+func (w *World) restorePolarity(overlay map[string][]byte) (map[string][]byte, []string) {
+	edits := map[string][]textEdit{}
+	var done []string
+	for _, name := range w.SortedFuncNames() {
+		f := w.Funcs[name]
+		pc, ok := pinnedConds[name]
+		if !ok || f.Decl.Body == nil {
+			continue
+		}
+		known := map[string]bool{}
+		for _, k := range strings.Split(pc, " | ") {
+			known[k] = true
+		}
+		tf, fname := w.fileOf(f.Decl.Pos())
+		src := readSource(fname, overlay)
+		text := func(a, b token.Pos) string { return string(src[tf.Offset(a):tf.Offset(b)]) }
+		// every condition tested now; a condition that is tested in both polarities is left alone
+		var target *ast.IfStmt
+		tail := false
+		var lists [][]ast.Stmt
+		ast.Inspect(f.Decl.Body, func(x ast.Node) bool {
+			switch y := x.(type) {
+			case *ast.FuncLit:
+				return false
+			case *ast.BlockStmt:
+				lists = append(lists, y.List)
+			case *ast.CaseClause:
+				lists = append(lists, y.Body)
+			}
+			return true
+		})
+		for _, list := range lists {
+			if target != nil {
+				break
+			}
+			for i, st := range list {
+				ifs, ok := st.(*ast.IfStmt)
+				if !ok || ifs.Init != nil {
+					continue
+				}
+				k := exprKey(ifs.Cond)
+				if known[k] || !known[negatedKey(ifs.Cond)] {
+					continue
+				}
+				if blk, ok := ifs.Else.(*ast.BlockStmt); ok && blk != nil {
+					target, tail = ifs, false
+					break
+				}
+				// guard form at the end of the function body
+				if ifs.Else == nil && terminates(ifs.Body.List) && i+1 < len(list) && terminates(list[i+1:]) && len(lists) > 0 && &list[0] == &f.Decl.Body.List[0] {
+					target, tail = ifs, true
+					break
+				}
+			}
+		}
+		if target == nil {
+			continue
+		}
+		neg := types.ExprString(negateExpr(target.Cond))
+		if !tail {
+			blk := target.Else.(*ast.BlockStmt)
+			txt := "if " + neg + " " + text(blk.Pos(), blk.End()) + " else " + text(target.Body.Pos(), target.Body.End())
+			edits[fname] = append(edits[fname], textEdit{tf.Offset(target.Pos()), tf.Offset(target.End()), txt})
+		} else {
+			body := f.Decl.Body
+			last := body.List[len(body.List)-1]
+			rest := text(target.End(), last.End())
+			inner := text(target.Body.Lbrace+1, target.Body.Rbrace)
+			txt := "if " + neg + " {" + rest + "\n}\n" + inner
+			edits[fname] = append(edits[fname], textEdit{tf.Offset(target.Pos()), tf.Offset(last.End()), txt})
+		}
+		done = append(done, name)
+	}
+	if len(done) == 0 {
+		return nil, nil
+	}
+	out := applyEdits(w, overlay, edits)
+	if out == nil {
+		return nil, nil
+	}
+	return out, done
+}
+
+// ---- a sub-expression kept in a local that is assigned again and again -------------------------------------------------
+
+// expandReassignedAliases: `var v T` … `v = E` (every assignment the same pure expression E, typically inside a loop)
+// … uses of v: if on no path anything E reads is stored between an assignment of v and a use of v, every use of v is E,
+// and v goes. (The single-definition case is handled by normalizeLocals.)
+func (w *World) expandReassignedAliases(overlay map[string][]byte) (map[string][]byte, []string) {
+	edits := map[string][]textEdit{}
+	var done []string
+	for _, name := range w.SortedFuncNames() {
+		f := w.Funcs[name]
+		pinned, ok := pinnedLocals[name]
+		if !ok || f.Decl.Body == nil {
+			continue
+		}
+		known := map[string]bool{}
+		for _, n := range strings.Fields(pinned) {
+			known[n] = true
+		}
+		info := f.Pkg.TypesInfo
+		tf, fname := w.fileOf(f.Decl.Pos())
+		src := readSource(fname, overlay)
+		g := f.Graph()
+		found := false
+		ast.Inspect(f.Decl.Body, func(x ast.Node) bool {
+			if found {
+				return false
+			}
+			ds, ok := x.(*ast.DeclStmt)
+			if !ok {
+				return true
+			}
+			gd, ok := ds.Decl.(*ast.GenDecl)
+			if !ok || gd.Tok != token.VAR || len(gd.Specs) != 1 {
+				return true
+			}
+			vs := gd.Specs[0].(*ast.ValueSpec)
+			if len(vs.Names) != 1 || len(vs.Values) != 0 || known[vs.Names[0].Name] {
+				return true
+			}
+			obj := info.Defs[vs.Names[0]]
+			if obj == nil {
+				return true
+			}
+			// assignments and uses
+			var asgs []*ast.AssignStmt
+			var uses []*ast.Ident
+			okShape := true
+			lhsOf := map[*ast.Ident]bool{}
+			ast.Inspect(f.Decl.Body, func(y ast.Node) bool {
+				switch z := y.(type) {
+				case *ast.FuncLit:
+					if usesIn(f, z, obj) {
+						okShape = false
+					}
+					return false
+				case *ast.AssignStmt:
+					for _, l := range z.Lhs {
+						if id, ok := ast.Unparen(l).(*ast.Ident); ok && info.ObjectOf(id) == obj {
+							if z.Tok != token.ASSIGN || len(z.Lhs) != 1 || len(z.Rhs) != 1 {
+								okShape = false
+							}
+							asgs = append(asgs, z)
+							lhsOf[id] = true
+						}
+					}
+				case *ast.UnaryExpr:
+					if z.Op == token.AND {
+						if id, ok := ast.Unparen(z.X).(*ast.Ident); ok && info.ObjectOf(id) == obj {
+							okShape = false
+						}
+					}
+				case *ast.IncDecStmt:
+					if id, ok := ast.Unparen(z.X).(*ast.Ident); ok && info.ObjectOf(id) == obj {
+						okShape = false
+					}
+				}
+				return true
+			})
+			if !okShape || len(asgs) == 0 {
+				return true
+			}
+			ast.Inspect(f.Decl.Body, func(y ast.Node) bool {
+				if id, ok := y.(*ast.Ident); ok && info.Uses[id] == obj && !lhsOf[id] {
+					uses = append(uses, id)
+				}
+				return true
+			})
+			if len(uses) == 0 {
+				return true
+			}
+			E := exprKey(asgs[0].Rhs[0])
+			for _, a := range asgs {
+				if exprKey(a.Rhs[0]) != E || !w.pureExpr(f, a.Rhs[0]) || usesIn(f, a.Rhs[0], obj) {
+					return true
+				}
+			}
+			// what E reads
+			reads := map[types.Object]bool{}
+			ast.Inspect(asgs[0].Rhs[0], func(y ast.Node) bool {
+				if id, ok := y.(*ast.Ident); ok {
+					if v, ok := info.ObjectOf(id).(*types.Var); ok {
+						reads[v] = true
+					}
+				}
+				return true
+			})
+			// stores into what E reads (the variable itself, or through it)
+			var stores []ast.Node
+			ast.Inspect(f.Decl.Body, func(y ast.Node) bool {
+				switch z := y.(type) {
+				case *ast.FuncLit:
+					return false
+				case *ast.AssignStmt:
+					for _, l := range z.Lhs {
+						e := ast.Unparen(l)
+						for {
+							switch s := e.(type) {
+							case *ast.SelectorExpr:
+								e = ast.Unparen(s.X)
+								continue
+							case *ast.IndexExpr:
+								e = ast.Unparen(s.X)
+								continue
+							case *ast.StarExpr:
+								e = ast.Unparen(s.X)
+								continue
+							}
+							break
+						}
+						if id, ok := e.(*ast.Ident); ok && reads[info.ObjectOf(id)] {
+							stores = append(stores, z)
+						}
+					}
+				case *ast.IncDecStmt:
+					if id, ok := ast.Unparen(z.X).(*ast.Ident); ok && reads[info.ObjectOf(id)] {
+						stores = append(stores, z)
+					}
+				}
+				return true
+			})
+			isAsg := func(nn ast.Node) bool {
+				for _, a := range asgs {
+					if nn == ast.Node(a) {
+						return true
+					}
+				}
+				return false
+			}
+			for _, st := range stores {
+				sl, ok := g.Locate(st)
+				if !ok {
+					return true
+				}
+				stale, _ := g.Forward(&sl, nil, func(nn ast.Node, at Loc) Verdict {
+					if isAsg(nn) {
+						return Cut
+					}
+					for _, u := range uses {
+						if nn.Pos() <= u.Pos() && u.End() <= nn.End() {
+							return Hit
+						}
+					}
+					return Go
+				}, nil)
+				if stale {
+					return true
+				}
+			}
+			// every use must come after an assignment: from the declaration, no use before an assignment
+			dl, ok := g.Locate(vs)
+			if !ok {
+				return true
+			}
+			early, _ := g.Forward(&dl, nil, func(nn ast.Node, at Loc) Verdict {
+				if isAsg(nn) {
+					return Cut
+				}
+				for _, u := range uses {
+					if nn.Pos() <= u.Pos() && u.End() <= nn.End() {
+						return Hit
+					}
+				}
+				return Go
+			}, nil)
+			if early {
+				return true
+			}
+			etxt := string(src[tf.Offset(asgs[0].Rhs[0].Pos()):tf.Offset(asgs[0].Rhs[0].End())])
+			switch ast.Unparen(asgs[0].Rhs[0]).(type) {
+			case *ast.Ident, *ast.SelectorExpr, *ast.CallExpr, *ast.IndexExpr, *ast.TypeAssertExpr:
+			default:
+				etxt = "(" + etxt + ")"
+			}
+			edits[fname] = append(edits[fname], textEdit{tf.Offset(ds.Pos()), tf.Offset(ds.End()), "// " + vs.Names[0].Name + " stands for " + E + ": substituted for analysis"})
+			for _, a := range asgs {
+				edits[fname] = append(edits[fname], textEdit{tf.Offset(a.Pos()), tf.Offset(a.End()), ""})
+			}
+			for _, u := range uses {
+				edits[fname] = append(edits[fname], textEdit{tf.Offset(u.Pos()), tf.Offset(u.End()), etxt})
+			}
+			done = append(done, name+":"+vs.Names[0].Name)
+			found = true
+			return false
+		})
+	}
+	if len(done) == 0 {
+		return nil, nil
+	}
+	out := applyEdits(w, overlay, edits)
+	if out == nil {
+		return nil, nil
+	}
+	return out, done
+}
+
+// receiverWrites: the first-level fields of its receiver a method stores into, if that is ALL it changes (every store is
+// `recv.f… = …` or into a local, every call it makes is pure). ok is false if the method may change anything else.
+func (w *World) receiverWrites(t *Func) (map[string]bool, bool) {
+	k := "recvwrites:" + t.Name
+	type res struct {
+		f  map[string]bool
+		ok bool
+	}
+	if v, ok := w.memo[k]; ok {
+		r := v.(res)
+		return r.f, r.ok
+	}
+	out := res{map[string]bool{}, true}
+	defer func() { w.memo[k] = out }()
+	if t.Decl.Recv == nil || len(t.Decl.Recv.List) != 1 || len(t.Decl.Recv.List[0].Names) != 1 || t.Decl.Body == nil {
+		out.ok = false
+		return out.f, false
+	}
+	info := t.Pkg.TypesInfo
+	recv := info.Defs[t.Decl.Recv.List[0].Names[0]]
+	ast.Inspect(t.Decl.Body, func(x ast.Node) bool {
+		if !out.ok {
+			return false
+		}
+		store := func(l ast.Expr) {
+			e := ast.Unparen(l)
+			first := ""
+			for {
+				switch y := e.(type) {
+				case *ast.SelectorExpr:
+					first = y.Sel.Name
+					e = ast.Unparen(y.X)
+					continue
+				case *ast.IndexExpr:
+					e = ast.Unparen(y.X)
+					continue
+				case *ast.StarExpr:
+					e = ast.Unparen(y.X)
+					continue
+				}
+				break
+			}
+			id, ok := e.(*ast.Ident)
+			if !ok {
+				out.ok = false
+				return
+			}
+			if id.Name == "_" {
+				return
+			}
+			o := info.ObjectOf(id)
+			if o == recv {
+				if first == "" {
+					out.ok = false
+					return
+				}
+				out.f[first] = true
+				return
+			}
+			if v, ok := o.(*types.Var); ok && !v.IsField() && v.Pkg() != nil && v.Parent() != v.Pkg().Scope() {
+				if first != "" {
+					// a store through a local pointer may reach anywhere
+					if _, isPtr := v.Type().Underlying().(*types.Pointer); isPtr {
+						out.ok = false
+					}
+				}
+				return
+			}
+			out.ok = false
+		}
+		switch y := x.(type) {
+		case *ast.AssignStmt:
+			for _, l := range y.Lhs {
+				store(l)
+			}
+		case *ast.IncDecStmt:
+			store(y.X)
+		case *ast.GoStmt, *ast.DeferStmt, *ast.SendStmt, *ast.FuncLit:
+			out.ok = false
+		case *ast.CallExpr:
+			if tv, ok := info.Types[y.Fun]; ok && tv.IsType() {
+				return true
+			}
+			if id, ok := ast.Unparen(y.Fun).(*ast.Ident); ok {
+				if _, isB := info.ObjectOf(id).(*types.Builtin); isB && id.Name != "copy" && id.Name != "delete" && id.Name != "clear" {
+					return true
+				}
+			}
+			callee := t.Callee(y)
+			if callee != nil && pureLibCall(calleeKey(callee)) {
+				return true
+			}
+			ts := w.resolve(callee)
+			if callee == nil || len(ts) == 0 {
+				out.ok = false
+				return false
+			}
+			for _, tt := range ts {
+				if tt == t || !w.pureFunc(tt, map[*Func]bool{}) {
+					out.ok = false
+				}
+			}
+		}
+		return true
+	})
+	return out.f, out.ok
+}
